@@ -138,7 +138,7 @@ func genStructCall(r *detsim.Rand, types []int, overrides bool) Call {
 		}
 	}
 	if r.Chance(1, 6) {
-		c.Shape = 1 + r.Intn(4)
+		c.Shape = 1 + r.Intn(6)
 	}
 	return c
 }
